@@ -79,6 +79,8 @@ def build_message(kind, peer, idx, salt):
         return b"verack", b""
     if kind == "version":
         ua = b"/c18:%d.%d/" % (peer, idx) if (salt >> 6) % 4 else b""  # one version message in four announces no user agent
+        if (salt >> 6) % 8 == 1:
+            ua = ua.ljust(253 + (salt >> 9) % 4, b"x")  # 253..256 bytes: the length prefix takes three bytes
         # the announced protocol version varies (the statement does not make the verack or later pongs depend on it)
         pv = (70015, 70016, 70001, 60002, 60001, 60000, 31800, 209, 106, 0, 2**31 - 1, 2**32 - 1)[(salt >> 2) % 12]
         pl = W.version_payload(
